@@ -6,4 +6,7 @@
 #[path = "gen/distributor_channels.rs"]
 pub mod distributor_channels;
 
+#[path = "gen/memory_pool/mod.rs"]
+pub mod memory_pool;
+
 pub mod orch;
